@@ -16,7 +16,7 @@ AXES = {
     "indexdep": ["none", "all", "mixed", "mixed_rev"],
     "weights": ["none", "ds_all", "ds_first", "ds_last", "model_global", "model_both"],
     "dscale": ["none", "second", "all"],
-    "multimc": ["single", "two", "two_scaled"],
+    "multimc": ["single", "two", "two_scaled", "two_rev", "two_neg"],
     "constraints": ["none", "zero_all", "zero_iv", "only_iv", "zero_src_iv"],
     "relation": ["none", "iv", "all", "two"],
     "penalty": ["none", "yes"],
@@ -65,6 +65,10 @@ def make_spec(o, variant=1, seed=0):
             m, ms = (["m1"] if k % 2 == 0 else ["m2"]), None
         elif o["multimc"] == "two":
             m, ms = ["m1", "m2"], None
+        elif o["multimc"] == "two_rev":  # the same megacomplexes, listed in the other order by every second dataset
+            m, ms = (["m1", "m2"] if k % 2 == 0 else ["m2", "m1"]), None
+        elif o["multimc"] == "two_neg":  # a negative megacomplex scale (a bleach): an entirely negative column
+            m, ms = ["m1", "m2"], [1.0, -1.5]
         else:
             m, ms = ["m1", "m2"], [2.0, 0.5]
         d = S.dataset(labels[k], GLOBAL_AXES[o["axes"]][k], n_model=N_MODEL[k], megacomplexes=m, mc_scales=ms)
